@@ -270,6 +270,8 @@ def load_known_findings():
 
 
 class Check:
+    current = None      # the Check of this process (main_wrapper reports through it)
+
     def __init__(self, pid, level, argv=None):
         argv = sys.argv[1:] if argv is None else argv
         self.pid = pid
@@ -297,6 +299,7 @@ class Check:
         self.samples = []
         os.makedirs(os.path.join(VERIF, "replays"), exist_ok=True)
         os.makedirs(os.path.join(VERIF, "evidence"), exist_ok=True)
+        Check.current = self
 
     @property
     def thorough(self):
@@ -422,8 +425,27 @@ class Check:
         sys.exit(1 if self.violations else 0)
 
 
+def _raised_in_repo(tb):
+    """(file, line, function) of the innermost frame of the traceback if that frame is code of the repository under test
+    (the implementation raised while the harness was driving it), else None."""
+    frames = traceback.extract_tb(tb)
+    if not frames:
+        return None
+    last = frames[-1]
+    root = os.path.realpath(REPO) + os.sep
+    fn = os.path.realpath(last.filename)
+    if fn.startswith(root) and (os.sep + "ethosu" + os.sep) in fn:
+        return (os.path.relpath(fn, root), last.lineno, last.name)
+    return None
+
+
 def main_wrapper(fn):
-    """Run a check's main(); map unexpected exceptions to exit 2 (infrastructure), never VIOLATION."""
+    """Run a check's main(). InfraError and exceptions of the harness's own code are exit 2 (infrastructure), never a
+    VIOLATION. An exception that the implementation itself raises while a harness drives it directly (function-level
+    correspondence on harness-built objects) means that this correspondence can no longer be run: by the rules of the
+    task that is reported - as a violation whose replay names the correspondence and the raising site, marked
+    no-failing-input-found - rather than silently skipped (exit 2 would hide a change that makes the code read a field,
+    take an argument or follow a path the unchanged code did not)."""
     try:
         fn()
     except SystemExit:
@@ -431,7 +453,19 @@ def main_wrapper(fn):
     except InfraError as e:
         print("INFRA-ERROR:", e)
         sys.exit(2)
-    except Exception:
+    except Exception as e:
         traceback.print_exc()
-        print("INFRA-ERROR: unexpected exception in harness")
-        sys.exit(2)
+        site = _raised_in_repo(e.__traceback__)
+        ck = Check.current
+        if site is None or ck is None or isinstance(e, (MemoryError, OSError)):
+            print("INFRA-ERROR: unexpected exception in harness")
+            sys.exit(2)
+        what = (f"correspondence could not be run: the implementation raised {type(e).__name__}: {str(e)[:160]} at "
+                f"{site[0]}:{site[1]} ({site[2]}) on an input built by the harness of {ck.pid}")
+        ck.violation(what, {"correspondence": f"harness/check_{ck.pid}.py (function-level correspondence / artefact extraction)",
+                            "raised": type(e).__name__, "message": str(e)[:500], "site": list(site),
+                            "traceback_tail": traceback.format_exc()[-3000:]}, found_input=False)
+        ck.finish({"evaluations": 0, "distinct_nontrivial": 0, "programs": 0, "disagreements_checked": 0,
+                   "rule": "run aborted: see explanation", "samples": [what],
+                   "explanation": what + "; no further case of this run was evaluated"},
+                  assumptions=["run aborted by an exception raised inside the repository under test"])
